@@ -41,7 +41,8 @@ RULE = ('Hypothesis op lists: history of 1-14 ops (parse_config of 1-4 generated
         'unlock_config+bind; gin.constant outside/inside interactive_mode(), and blocks of 1-3 '
         'definitions inside one interactive_mode(), over names '
         '{X,a.X,b.a.X,Y,a.Y,c.Y,K,REQUIRED,gin.ext.SEED,gin.X,gin.REQUIRED,x.gin.REQUIRED,invalid}; singleton use through config and through '
-        'singleton_value; gin.constants_from_enum on two long-lived module-level enum classes under '
+        'singleton_value; programmatic binding (+call) of an object whose repr raises once a later '
+        '"break_repr" op has run; gin.constants_from_enum on two long-lived module-level enum classes under '
         '3 module names, outside/inside interactive_mode(); parse_config_file of real temp files '
         '(2 paths, optionally including one of 2 other files, optional failing statement in the '
         'file and/or in the included file); queries; config-string reads), then clear_config(clear_constants in '
@@ -70,6 +71,12 @@ ASSUMPTIONS = [
     'before the fresh side runs',
     'enum classes are module-level objects of the check (inherited by every fork), i.e. the same '
     'class object is used before and after the clear, as a long-lived program would',
+    'constant / bound values include None, 0, containers, non-literal objects and the gin.REQUIRED '
+    'sentinel object itself',
+    'config_str()/operative_config_str() may legitimately raise while a bound or recorded object '
+    'has a raising __repr__ (they do on the pristine tree); only clear_config() and what follows '
+    'it are asserted, and the harness flag that makes repr raise is reset before observing on '
+    'both sides',
     'exceptions are compared by their first builtin class in the MRO only, never by message',
     'reference cycles between bindings (f.p = @f()) are excluded by construction (references only '
     'point to probes later in a fixed order; macros hold literals only)',
@@ -82,7 +89,8 @@ FLOORS = {'nontrivial': (0.15, _S), 'pre:locked': (0.1, _S), 'pre:singleton-cach
           'hist:const-interactive-ok': (0.1, _S), 'hist:failed-op': (0.3, _S),
           'clear:constants-kept': (0.3, _S), 'clear:constants-dropped': (0.3, _S),
           'survivors-kept>=1': (0.1, _S), 'obs:final-operative-readable': (0.6, _S),
-          'hist:const-gin-namespace': (0.05, _S), 'hist:enum-ok': (0.08, _S), 'hist:pfile-failed': (0.08, _S), 'hist:pfile-ok': (0.05, _S),
+          'hist:const-gin-namespace': (0.05, _S), 'hist:const-value-is-REQUIRED-sentinel': (0.03, _S),
+          'hist:flaky-in-operative-record-then-broken': (0.02, _S), 'hist:enum-ok': (0.08, _S), 'hist:pfile-failed': (0.08, _S), 'hist:pfile-ok': (0.05, _S),
           'hist:pfile-failed-with-faulty-include': (0.02, _S)}
 TECHNIQUE = ('model-free differential over generated operation histories: state after '
              'history+clear_config vs a fresh fork of the pristine process, compared through one '
@@ -189,9 +197,31 @@ FAULTS = ['nope.p = 1', 'c20m.f.p = 1 +', 'c20m.f.zz = 1', 'import c20_no_such_m
 NVALS = 9
 
 
+def norm_vi(i):
+  """Operand -> canonical value index: 0-8 the pool below, 18 the gin.REQUIRED sentinel itself."""
+  i %= 20
+  return 18 if i >= 18 else i % NVALS
+
+
 def mkval(i):
-  i %= NVALS
+  i = norm_vi(i)
+  if i == 18:
+    return gin.REQUIRED            # a user constant / binding whose VALUE is the sentinel
   return [0, 1, 'v', (1, 'a'), [1, 2], {'k': 1}, None, Token(7), Token(8)][i]
+
+
+BROKEN = [False]    # harness state, like EPOCH: flipped by the 'break_repr' op, reset before observing
+
+
+class Flaky:
+  """A bound Python object whose repr works at first and raises from some point on (a client
+  that was closed in the meantime).  Formatting a config that holds it then raises - which is
+  legitimate for config_str()/operative_config_str(), but clear_config() must still succeed."""
+
+  def __repr__(self):
+    if BROKEN[0]:
+      raise ConnectionError('client is closed')
+    return '<Flaky>'
 
 
 def survivor_value(v):
@@ -266,10 +296,16 @@ class Describer:
       return {'Token': v.n, 'obj': self.serial(v)}
     if isinstance(v, enum.Enum):
       return 'enum:%s.%s' % (type(v).__name__, v.name)
+    if isinstance(v, Flaky):
+      return 'Flaky'
     for name, w in WRAPPERS.items():
       if v is w:
         return 'wrapper:' + name
-    return {'other': type(v).__name__, 'repr': ADDR.sub('0x', repr(v))[:200]}
+    try:
+      text = ADDR.sub('0x', repr(v))[:200]
+    except Exception as e:  # pylint: disable=broad-except
+      text = 'repr raises ' + exc_name(e)
+    return {'other': type(v).__name__, 'repr': text}
 
 
 # ----------------------------------------------------------------------------- op interpreter
@@ -357,6 +393,7 @@ class Machine:
     self.n_calls = 0
     self.n_failed = 0
     self.failed_mains = set()
+    self.flaky_called = False
 
   def attempt(self, fn):
     try:
@@ -379,12 +416,14 @@ class Machine:
       self.labels.add('hist:const-suffix-defined-after-longer')
     if any(n.endswith('.' + name) or name.endswith('.' + n) for n in others):
       self.labels.add('hist:const-suffix-coexist')
-    self.defined[name] = (vi % NVALS if isinstance(vi, int) else vi, obj)
+    self.defined[name] = (norm_vi(vi) if isinstance(vi, int) else vi, obj)
     self.labels.add('hist:const-interactive-ok' if interactive else 'hist:const-ok')
     if name.startswith('gin.'):
       self.labels.add('hist:const-gin-namespace')
     if name == 'gin.REQUIRED':
       self.labels.add('hist:const-gin.REQUIRED-redefined')
+    if obj is gin.REQUIRED and name != 'gin.REQUIRED':
+      self.labels.add('hist:const-value-is-REQUIRED-sentinel')
 
   def run(self, op):
     k = op[0]
@@ -410,6 +449,37 @@ class Machine:
       val = mkval(vi)
       self.labels.add('hist:bind')
       return self.attempt(lambda: gin.bind_parameter(key, val))
+    if k == 'flaky':
+      # programmatic binding of a Flaky object, then the call that puts it in the operative record
+      # mode 0: bind only; 1: bind + call; 2: bind + call, and the repr breaks right afterwards
+      _, sc, fn, pa, mode = op
+      mode = int(mode) % 3
+      call_it = mode >= 1
+      scope = SCOPES[sc % len(SCOPES)]
+      name = FNS[fn % len(FNS)]
+      key = scoped(scope, name) + '.' + PARAMS[pa % len(PARAMS)]
+
+      def bind_and_call():
+        gin.bind_parameter(key, Flaky())
+        if call_it:
+          with gin.config_scope(scope):
+            return WRAPPERS[name]()
+        return None
+      out = self.attempt(bind_and_call)
+      if out[0] == 'ok':
+        self.labels.add('hist:flaky-bound')
+        if call_it:
+          self.n_calls += 1
+          self.flaky_called = True
+          if mode == 2:
+            self.run(['break_repr'])
+      return out
+    if k == 'break_repr':
+      BROKEN[0] = True
+      self.labels.add('hist:repr-broken')
+      if self.flaky_called:
+        self.labels.add('hist:flaky-in-operative-record-then-broken')
+      return ['ok', None]
     if k == 'unlock_bind':
       _, sc, fn, pa, vi = op
       key = scoped(SCOPES[sc % len(SCOPES)], FNS[fn % len(FNS)]) + '.' + PARAMS[pa % len(PARAMS)]
@@ -645,6 +715,7 @@ def snapshot(desc, tag, probing):
 
 
 def observe(case, seeded):
+  BROKEN[0] = False       # same harness state on both sides when the observation starts
   desc = Describer(seeded)
   out = snapshot(desc, 'A', True)
   m = Machine(desc)
@@ -843,6 +914,8 @@ def _op():
       st.tuples(st.just('const'), _i, _i, _b),
       st.tuples(st.just('const_block'), st.lists(st.tuples(_i, _i).map(list), min_size=1, max_size=3)),
       st.tuples(st.just('enum'), _i, _i, _b),
+      st.tuples(st.just('flaky'), _i, _i, _i, st.sampled_from([1, 1, 2, 2, 0])),
+      st.tuples(st.just('break_repr')),
       st.tuples(st.just('pfile'), _i, st.lists(_stmt(), min_size=1, max_size=3), pfault,
                 st.none() | st.tuples(_i, st.lists(_stmt(), min_size=0, max_size=2),
                                       pfault).map(list)),
@@ -885,6 +958,11 @@ def sweep_consts(tier):
     hist = prefix + [['const', ni, 7 + (j % 2), inter] for j, (ni, inter) in enumerate(seq)]
     for cc in (False, True):
       cases.append({'history': hist, 'clear_constants': cc, 'follow': follow, 'origin': 'sweep'})
+  for ni, inter in both:
+    # one constant whose value is the gin.REQUIRED sentinel itself
+    for cc in (False, True):
+      cases.append({'history': prefix + [['const', ni, 18, inter]], 'clear_constants': cc,
+                    'follow': follow, 'origin': 'sweep'})
   return cases, True
 
 
